@@ -485,6 +485,43 @@ def runtime_checks():
                                     violated='does not select the last output unit'))
             except Exception as e:
                 bad.append(dict(case='output unit -1 on a shared network', condition=name, outputs=n_out, error=f'{type(e).__name__}: {e}'))
+    # edge data of very different magnitudes (a large value on one edge, O(1) profiles on the others; corners compatible): each edge function is
+    # reproduced to the rounding of ITS OWN size - the large edge does not swamp the small ones
+    try:
+        A = 1.0e9
+        U = lambda x, y: A * (1 - x) + (1 + y) * x
+        cond = DirichletBVP2D(0., lambda y: U(0 * y, y), 1., lambda y: U(0 * y + 1, y), 0., lambda x: U(x, 0 * x), 1., lambda x: U(x, 0 * x + 1))
+        netb = FCNN(2, 1, hidden_units=(5,)).double()
+        yy = torch.linspace(0., 1., 6, dtype=torch.float64).reshape(-1, 1)
+        got = cond.enforce(netb, torch.ones_like(yy).requires_grad_(), yy.clone().requires_grad_()).detach()
+        want = 1 + yy
+        if not torch.allclose(got, want, rtol=0, atol=1e-11):
+            bad.append(dict(case='edge data of very different magnitudes (1e9 on x = 0, O(1) on x = 1)', edge='x = 1', violated='edge function not reproduced to rounding',
+                            max_abs_error=float((got - want).abs().max()), got=got.reshape(-1).tolist(), want=want.reshape(-1).tolist()))
+    except Exception as e:
+        bad.append(dict(case='edge data of very different magnitudes', error=f'{type(e).__name__}: {e}'))
+    # the initial profile is reproduced EXACTLY at t_min (theorems ibvp_*_initial_exact: the boundary lift cancels to an exact zero there), also
+    # when the end data are many orders of magnitude larger than the profile in the interior
+    for dt_ in (torch.float32, torch.float64):
+        A = 1.0e4
+        prof = lambda x: A * (2 * x - 1) ** 8                      # = A at both ends, ~0 in the middle
+        dprof0, dprof1 = -16 * A, 16 * A
+        for mode, kw in (('DD', dict(x_min_val=lambda t: A + 0 * t, x_max_val=lambda t: A * torch.cos(0 * t))),
+                         ('DN', dict(x_min_val=lambda t: A + 0 * t, x_max_prime=lambda t: dprof1 + 0 * t)),
+                         ('ND', dict(x_min_prime=lambda t: dprof0 + 0 * t, x_max_val=lambda t: A + 0 * t)),
+                         ('NN', dict(x_min_prime=lambda t: dprof0 + 0 * t, x_max_prime=lambda t: dprof1 + 0 * t))):
+            try:
+                cond = IBVP1D(0., 1., 0., prof, **kw)
+                netq = FCNN(2, 1, hidden_units=(5,)).to(dt_)
+                xs_ = torch.linspace(0.0, 1.0, 9, dtype=dt_).reshape(-1, 1).requires_grad_()
+                got = cond.enforce(netq, xs_, torch.zeros(9, 1, dtype=dt_, requires_grad=True)).detach()
+                want = prof(xs_).detach()
+                if not torch.equal(got, want):
+                    bad.append(dict(case='IBVP1D with end data of size 1e4 and a profile that is ~0 in the interior', mode=mode, dtype=str(dt_),
+                                    violated='u(x, t_min) is not exactly the initial profile', max_abs_error=float((got - want).abs().max()),
+                                    where_profile_is=float(want.abs().min())))
+            except Exception as e:
+                bad.append(dict(case='IBVP1D with large end data', mode=mode, error=f'{type(e).__name__}: {e}'))
     # the initial time is a public attribute: a condition that has been evaluated and is then moved to a later initial time (time marching)
     # takes its initial profile - and the compatibility terms built from it - at the NEW initial time
     for mode, kw in (('DD', dict(x_min_val=lambda t: torch.sin(t), x_max_val=lambda t: torch.cos(t))),
